@@ -5,7 +5,9 @@ namespace GmQuic.RcvdJournal
 open GmQuic.Wire
 
 theorem rangeCountIncr_le (n : Nat) : rangeCountIncr n ≤ 4 := by
-  unfold rangeCountIncr; repeat' split
+  unfold rangeCountIncr
+  simp only [GmQuic.Gen.ackIncrBy1, GmQuic.Gen.ackIncrBy2, GmQuic.Gen.ackIncrBy3, GmQuic.Gen.ackIncrDefault]
+  repeat' split
   all_goals omega
 
 theorem foldRanges_nobreak (bs : List Bool) (gap ack : Nat) (last : Bool) (cap : Nat) (rs : List (Nat × Nat))
